@@ -60,10 +60,18 @@ structure Eco where
 /-- The configuration `libindex.New` was given: ecosystems in order. -/
 abbrev Cfg := List Eco
 
+/-- First occurrences. -/
+def dedupS : List Scanner → List Scanner
+  | [] => []
+  | s :: rest => s :: (dedupS rest).filter (· != s)
+
 /-- `indexer.EcosystemsToScanners` + `MergeVS`: package, distribution,
-    repository, file scanners, ecosystem by ecosystem. -/
+    repository, file scanners, ecosystem by ecosystem; a scanner that several
+    ecosystems list (rpm in the rhel and the rpm ecosystem) is taken once. The
+    code de-duplicates by name within a kind; two different scanners of one
+    name and kind are outside the model (assumption of the property). -/
 def Cfg.scanners (c : Cfg) : List Scanner :=
-  c.flatMap (·.ps) ++ c.flatMap (·.ds) ++ c.flatMap (·.rs) ++ c.flatMap (·.fs)
+  dedupS (c.flatMap (·.ps) ++ c.flatMap (·.ds) ++ c.flatMap (·.rs) ++ c.flatMap (·.fs))
 
 /-- What a coalescer is handed for one layer (`indexer.LayerArtifacts`). -/
 structure LayerArts where
